@@ -397,6 +397,12 @@ def catalogue():
     c.append(("cat|list-filter-result-type", "l: [int...] = [1, 2]\nf = fn(v: int) -> bool {\n\treturn v > 1\n}\nprint \"@run\"\n" + probe("l.filter(f)")))
     c.append(("cat|list-concat", "a: [int...] = [1]\nb: [str...] = [\"x\"]\nprint \"@run\"\n" + probe("a + b") + "c = a + b\nd = c[1] + 1\nprint d\n"))
     c.append(("cat|list-join-mismatch", "a: [int...] = [1]\nb: [str...] = [\"x\"]\nprint \"@run\"\nc = a.join(b)\nd = c[1] + 1\nprint d\n"))
+    # an unpack whose EARLIER name already exists with another type (the last name is new): the old type stays observable through a
+    # function defined before
+    for nm, pre_, unp in (("first-of-two", "label = \"total\"\n", "[label, count] = [3, 4]"), ("first-of-three", "label = \"total\"\n", "[label, count, rest] = [3, 4, 5]"),
+                          ("middle-of-three", "label = \"total\"\n", "[count, label, rest] = [3, 4, 5]"), ("two-existing-then-new", "label = \"total\"\nflag = true\n", "[label, flag, rest] = [3, 4, 5]")):
+        c.append(("cat|unpack-retypes-existing-name:" + nm, pre_ + "describe = fn() -> str {\n\treturn label\n}\nprint \"@run\"\n" + unp + "\n" + probe("label") + probe("describe()") + probe("(describe()).len()")))
+        c.append(("cat|unpack-retypes-existing-name-in-function:" + nm, "run = fn() -> int {\n" + "".join("\t" + l + "\n" for l in (pre_ + "describe = fn() -> str {\n\treturn label\n}\n" + unp + "\n" + probe("(describe()).len()")).strip().split("\n")) + "\treturn 1\n}\nprint \"@run\"\n" + probe("run()")))
     c.append(("cat|push-wrong-through-alias", "a: [int...] = [1]\nb = a\nprint \"@run\"\nb.push(\"x\")\nd = a[1] + 1\nprint d\n"))
     c.append(("cat|index-of-mismatch", "a: [int...] = [1]\nprint \"@run\"\n" + probe("a.index_of(\"x\")")))
     c.append(("cat|export-type-mismatch", "import v from lib\nprint \"@run\"\n" + probe("v") + probe("v + 1"), {"lib.ms": "export v: int = 5\n"}))
@@ -467,6 +473,12 @@ def check(case):
     through = any(p in ("optint", "optint-builtin", "optstr-builtin", "list", "fixed", "map", "fn", "obj") for p in parts[2:]) or parts[0] in ("cat", "builtin")
     r = CaseResult(nt_keys=[name] if (not rejected and (mixed or through)) else [], labels=["family=" + parts[0], "verdict=" + ("rejected" if rejected else "accepted")],
                    sample={"cell": name, "verdict": "rejected" if rejected else "accepted", "program_tail": src[-220:]})
+    if name.startswith("cat|") and rejected and re.search(r"^\s*= expected [a-z_]", run.stdout, re.M) and not case.get("syntax_error_intended"):
+        # a catalogue program that does not even PARSE tests nothing (this grammar takes one postfix per atom, newlines do not end
+        # statements ...): harness problem, not a verdict
+        r.failure = fail("catalogue program is a syntax error: harness problem, not a violation\n%s\n%s" % (src[-500:], run.stdout[-300:]), "C02:catalogue-syntax", sc, case={"cell": name})
+        r.failure["inconclusive"] = True
+        return r
     if name.startswith("control|") and (rejected or run.klass != "ok"):
         # the shared prelude (class, helper, aliases) plus one declaration of every operand type must compile and run: if it does
         # not, every cell is "rejected" for a reason that has nothing to do with its operator, and the matrix would be vacuous
